@@ -114,6 +114,29 @@ def instances(tier, rng):
     return out
 
 
+def spot(tier, rng):
+    """long paths / cycles / larger grids with the labeling pinned (whole graph one region, halves, alternating, seeded random);
+    all forest / rank / root auxiliaries symbolic"""
+    out = []
+    for n in ((12, 18) if tier == "quick" else (12, 18, 26)):
+        for nm, es in (("path", [(i, i + 1) for i in range(n - 1)]), ("cycle", [(i, (i + 1) % n) for i in range(n)])):
+            for k in (2, 3):
+                pats = [[0] * n, [0] * (n // 2) + [1] * (n - n // 2), [i % 2 for i in range(n)], [min(k - 1, i * k // n) for i in range(n)],
+                        [rng.randrange(k) for _ in range(n)]]
+                for ae in (False, True):
+                    for prim in (False, True):
+                        out.append(dict(name="spot-%s%d/k%d/ae%d/pr%d" % (nm, n, k, ae, prim), form="list", n=n, edges=es, k=k, allow_empty=ae,
+                                        primitive=prim, roots=[0] + [None] * (k - 1), labels="vars", patterns=pats))
+    for (h, w) in ((4, 4), (3, 6)) if tier == "quick" else ((4, 4), (3, 6), (5, 5)):
+        n = h * w
+        pats = [[0] * n, [0 if (c % w) < w // 2 else 1 for c in range(n)], [(c // w + c % w) % 2 for c in range(n)],
+                [0 if c // w == 0 or c % w == 0 else 1 for c in range(n)]]
+        for ae in (False, True):
+            out.append(dict(name="spot-grid%dx%d/k2/ae%d" % (h, w, ae), form="grid", h=h, w=w, k=2, allow_empty=ae, primitive=False,
+                            roots=None, labels="vars", patterns=pats))
+    return out
+
+
 def key_of(d, kind):
     return "%s,primitive=%d,%s" % (d["form"], d["primitive"], kind)
 
@@ -128,8 +151,9 @@ def run(tier, only=None):
          "roots": "None, first/last vertex, two roots, (thorough) random pairs and a doubly-claimed vertex",
          "forms": "list, IntArray1D, IntArray2D with (y,x) roots; labels as variables 0..k-1 or expressions v-1; "
                   "config.use_graph_primitive on/off (division_connected has no per-call switch)"},
-        ["more regions / larger graphs", "label expressions that can leave 0..num_regions-1 (outside the property's precondition)"],
-        E.EXPL)
+        ["more regions / larger graphs (beyond the bound only pinned 'spot' labelings on paths/cycles up to 26 vertices and grids up to 5x5 are "
+         "decided)", "label expressions that can leave 0..num_regions-1 (outside the property's precondition)"],
+        E.EXPL, spot=spot)
 
 
 replay = E.generic_replay
